@@ -563,6 +563,8 @@ CheckRet(tk, e, tk2) ==
     \cup V(tk.op = "rt" /\ tk.oa # NONE => e.r = 1 /\ e.act = tk.oa /\ e.prev = <<NONE, tk.oa, 0>>, "C11", "replayTransition(d) did not activate d or did not record it")
     \cup V(tk.op = "rt" /\ tk.oa # NONE /\ FullObs => tk.life = LifeFor(a0, tk.oa), "C11", "replayTransition(d) ran other callbacks than the needed enter/exit/reenter")
     \cup V(tk.op = "re" => e.act = tk.oa /\ (HasHist => e.prev = <<NONE, tk.oa, 0>>), "C11", "replayEnter(d) did not activate d or did not record it")
+    \cup V((tk.op = "re" \/ (tk.op = "rt" /\ tk.oa # NONE)) /\ HasHist /\ e.prev # NoT => e.prev[3] = 0 /\ e.prev[1] = NONE,
+           "C07", "the record of a replayed transition (made without a payload, from outside) shows a payload or an origin of another request")
     \cup V(tk.op = "re" /\ FullObs => tk.life = LifeFor(NONE, tk.oa), "C11", "replayEnter(d) ran other callbacks than the needed enter")
     \* ---- C05: query
     \cup V(tk.op = "query" => Unchanged(tk, e), "C05", "query() changed the machine")
